@@ -15,6 +15,41 @@ import (
 	"gitlab.com/aquachain/aquachain/verifharness/vh"
 )
 
+// Synthetic types: exercise every case of rlp's makeDecoder / makeWriter that the
+// consensus types do not (bool, narrow uints, strings, non-byte arrays, big.Int by
+// value, nested pointers, rlp:"nil" on structs and byte arrays, interface{}, "tail").
+type SynthInner struct {
+	X uint16
+	Y []byte
+}
+type SynthAll struct {
+	U8   uint8
+	U16  uint16
+	U32  uint32
+	U64  uint64
+	U    uint
+	B    bool
+	S    string
+	Bs   []byte
+	A1   [1]byte
+	A3   [3]byte
+	Big  *big.Int
+	BigV big.Int
+	Sl   []uint16
+	Arr  [2]uint32
+	P    *SynthInner
+	N    *SynthInner `rlp:"nil"`
+	NA   *[4]byte    `rlp:"nil"`
+	I    interface{}
+	Skip uint64 `rlp:"-"`
+	In   SynthInner
+}
+type SynthTail struct {
+	A    uint8
+	B    [2]SynthInner
+	Rest []uint64 `rlp:"tail"`
+}
+
 type Entry struct {
 	Name string
 	Type reflect.Type // the public Go type decoded into
@@ -34,6 +69,9 @@ func Registry() []Entry {
 		{"Transactions", reflect.TypeOf(types.Transactions{})},
 		{"Receipts", reflect.TypeOf(types.Receipts{})},
 		{"Headers", reflect.TypeOf([]*types.Header{})},
+		{"SynthAll", reflect.TypeOf(SynthAll{})},
+		{"SynthTail", reflect.TypeOf(SynthTail{})},
+		{"SynthAlls", reflect.TypeOf([]*SynthAll{})},
 	}
 	sort.Slice(es, func(i, j int) bool { return es[i].Name < es[j].Name })
 	return es
@@ -265,6 +303,8 @@ func fill(r *vh.RNG, t reflect.Type, tg tags, fieldName string, depth int) refle
 			}
 			v.Field(i).Set(fill(r, f.Type, ft, f.Name, depth-1))
 		}
+	case k == reflect.Interface:
+		v.Set(reflect.ValueOf(randItem(r, 2)))
 	case k == reflect.Ptr:
 		if tg.nilOK && r.Bool() {
 			break // nil
@@ -274,6 +314,22 @@ func fill(r *vh.RNG, t reflect.Type, tg tags, fieldName string, depth int) refle
 		v.Set(p)
 	}
 	return v
+}
+
+func randItem(r *vh.RNG, depth int) interface{} {
+	if depth > 0 && r.Chance(40) {
+		n := r.Intn(3)
+		l := make([]interface{}, n)
+		for i := range l {
+			l[i] = randItem(r, depth-1)
+		}
+		return l
+	}
+	b := r.Bytes([]int{0, 1, 1, 2, 33}[r.Intn(5)])
+	if len(b) == 1 && r.Bool() {
+		b[0] = byte(r.Intn(128))
+	}
+	return b
 }
 
 func randBig(r *vh.RNG) *big.Int {
